@@ -115,3 +115,33 @@ def record_and_judge(res, tier, n, cfgs, classify, spec="TraceEval", recorder="r
         os.remove(tr)
     res.add("evaluations", total)
     return total
+
+
+def block_family(res, tier):
+    """MC_Block: every combination of per-value outcomes (PASS / FAIL / SKIP / unresolved) of a block
+    clause over up to 3 (quick) / 4 values, all / some, with and without !empty: BlockLaw on the
+    specification, every state replayed against the implementation"""
+    r = tlc("MC_Block", env={"MAXN": "3" if tier == "quick" else "4"}, workers=8, timeout=1200, tag="mcblock", heap="4g")
+    if r["violated"] or not r["ok"]:
+        log(r["out"][-3000:])
+        raise ToolError("MC_Block: BlockLaw fails on the specification")
+    cases = os.path.join(WORK, "block_cases_%s.ndjson" % res.prop)
+    n = 0
+    with open(cases, "w") as f:
+        for t in tlc_tuples(r["out"], "REPLAY"):
+            f.write((t[1] if isinstance(t[1], str) else json.dumps(t[1])) + "\n")
+            n += 1
+    if n < 300:
+        raise ToolError("MC_Block produced too few cases")
+    mp = os.path.join(WORK, "block_mism_%s.ndjson" % res.prop)
+    summ = json.loads(gv(["replay-prog", "--cases", cases, "--out", mp]).strip().split("\n")[-1])
+    res.add("states", r["distinct"])
+    res.add("transitions", r["states"])
+    res.add("traces_validated_against_impl", summ["cases"])
+    res.add("evaluations", summ["cases"])
+    res.cov["block_family_cases"] = summ["cases"]
+    for l in open(mp):
+        mm = json.loads(l)
+        res.violation("block-aggregation:spec-vs-impl", mm)
+    for p_ in (cases, mp):
+        os.remove(p_)
